@@ -36,11 +36,18 @@ static void open_bytes(const unsigned char *raw, size_t n, const char *pt, const
     int fd = zh_memfd(raw, n);
     zckCtx *zck = zck_create();
     int ok = zck_init_adv_read(zck, fd);
+    /* pin type "L<t>": the options are set AFTER zck_read_lead (they are then never compared; the stored checksum
+       must still be checked against the header bytes) */
+    int late = pt[0] == 'L', lead_ok = 1;
+    if(late) {
+        pt++; lead_ok = ok && zck_read_lead(zck);
+        if(!lead_ok) { printf("ERR\n"); zck_free(&zck); close(fd); return; }
+    }
     if(ok && strcmp(pt, "-")) ok = zck_set_ioption(zck, ZCK_VAL_HEADER_HASH_TYPE, atol(pt));
     if(ok && strcmp(pd, "-")) ok = zck_set_soption(zck, ZCK_VAL_HEADER_DIGEST, pd, strlen(pd));
     if(ok && strcmp(ps, "-")) ok = zck_set_ioption(zck, ZCK_VAL_HEADER_LENGTH, atol(ps));
     if(!ok) printf("BADPIN\n");
-    else if(zck_read_lead(zck) && zck_read_header(zck)) dump(zck);
+    else if((late ? lead_ok : zck_read_lead(zck)) && zck_read_header(zck)) dump(zck);
     else printf("ERR\n");
     zck_free(&zck);
     close(fd);
